@@ -3,8 +3,8 @@
 (* Bounded exhaustive exploration of Preprocess and generator of replay    *)
 (* cases (spec -> impl).                                                   *)
 (*                                                                         *)
-(* Init picks a script tag, a reading of the named deviations and EVERY    *)
-(* string up to the script's length bound over the script's alphabet of    *)
+(* Init picks a script tag and a reading of the named deviations; Extend   *)
+(* builds EVERY string up to the script's length bound over the alphabet of *)
 (* nine real code points (one representative per abstract class: base,     *)
 (* marks of the classes the rules distinguish, the characters the          *)
 (* script's decompositions mention, a class-0 mark / joiner).  Each Next   *)
@@ -20,14 +20,18 @@
 (* The class table is read from the file named by env C17_MCC, which the   *)
 (* driver dumps from allsorts before TLC starts (the table is an input).   *)
 (***************************************************************************)
-EXTENDS Preprocess, SequencesExt, Json, IOUtils
+EXTENDS Preprocess, SequencesExt
 
 CONSTANT LenOf          \* tag -> longest string explored
 
-VARIABLES tag, rd, inp, k, prev, cur
-vars == <<tag, rd, inp, k, prev, cur>>
-
-MCMccPairs == JsonDeserialize(IOEnv.C17_MCC)
+VARIABLES tag,    \* script tag handed to preprocess_text
+          alpha,  \* name of the alphabet the input is drawn from
+          rd,     \* reading of the named deviations
+          inp,    \* the input text
+          k,      \* -1 while the input is being built, then the number of stages performed
+          prev, cur,   \* text before / after the last stage
+          chg     \* stages that changed the text (vacuity counters)
+vars == <<tag, alpha, rd, inp, k, prev, cur, chg>>
 
 \* ---- alphabets: nine code points per script tag ------------------------------
 Alpha ==
@@ -59,39 +63,47 @@ Alpha ==
 TagOf(a) == CASE a = "arb2" -> "arab" [] a = "lao" -> "lao " [] OTHER -> a
 
 Init ==
-  \E a \in DOMAIN Alpha :
-    \E r \in Readings(TagOf(a)) :
-      \E n \in 0 .. LenOf[a] :
-        \E w \in [1 .. n -> Alpha[a]] :
-          /\ tag = TagOf(a) /\ rd = r /\ inp = w /\ k = 0 /\ prev = w /\ cur = w
+  \E a \in DOMAIN Alpha : \E r \in Readings(TagOf(a)) :
+     /\ tag = TagOf(a) /\ alpha = a /\ rd = r
+     /\ inp = <<>> /\ k = -1 /\ prev = <<>> /\ cur = <<>> /\ chg = {}
 
-Next ==
-  /\ k < Len(Stages(tag))
+\* building the input: every string over the alphabet up to the bound (a tree, so that TLC's
+\* workers share the enumeration)
+Extend ==
+  /\ k = -1 /\ Len(inp) < LenOf[alpha]
+  /\ \E c \in Alpha[alpha] : inp' = Append(inp, c)
+  /\ UNCHANGED <<tag, alpha, rd, k, prev, cur, chg>>
+Start ==
+  /\ k = -1
+  /\ k' = 0 /\ prev' = inp /\ cur' = inp
+  /\ UNCHANGED <<tag, alpha, rd, inp, chg>>
+\* one primitive rearrangement
+Stage ==
+  /\ k >= 0 /\ k < Len(Stages(tag))
   /\ k' = k + 1
   /\ prev' = cur
   /\ cur' = ApplyStage(Stages(tag)[k + 1], rd, cur)
-  /\ UNCHANGED <<tag, rd, inp>>
+  /\ chg' = IF cur' # cur THEN chg \cup {Stages(tag)[k + 1]} ELSE chg
+  /\ UNCHANGED <<tag, alpha, rd, inp>>
 
+Next == Extend \/ Start \/ Stage
 Spec == Init /\ [][Next]_vars
 
 ---------------------------------------------------------------------------
 StepOK   == k > 0 => StageOK(tag, Stages(tag)[k], prev, cur)
-GlobalOK == ContentRel(Family(tag), inp, cur) /\ SkeletonRel(Family(tag), inp, cur)
+GlobalOK == k > 0 => ContentRel(Family(tag), inp, cur) /\ SkeletonRel(Family(tag), inp, cur)
 Done     == k = Len(Stages(tag))
 FinalOK  == Done => /\ RelFailures(tag, inp, cur) = {}
                     /\ cur = Expected(tag, rd, inp)
 
-Changed == {st \in Range(Stages(tag)) :
-              \E j \in 1 .. Len(Stages(tag)) :
-                 Stages(tag)[j] = st /\ AfterStage(tag, rd, inp, j) # AfterStage(tag, rd, inp, j - 1)}
-Alts == {Expected(tag, r, inp) : r \in Readings(tag)} \ {cur}
+Alts == IF Cardinality(Readings(tag)) = 1 THEN {} ELSE {Expected(tag, r, inp) : r \in Readings(tag)} \ {cur}
 
 Emit ==
   (Done /\ rd = "doc") =>
      PrintT(<<"CASE", ToJson([tag |-> tag, in |-> inp, exp |-> cur,
-                              alt |-> SetToSeq(Alts), ch |-> SetToSeq(Changed)])>>)
+                              alt |-> SetToSeq(Alts), ch |-> SetToSeq(chg)])>>)
 
 \* ---- bounds -------------------------------------------------------------------
-LenQuick    == [a \in DOMAIN Alpha |-> IF a \in {"arab", "thai"} THEN 5 ELSE 4]
-LenThorough == [a \in DOMAIN Alpha |-> IF a \in {"arab", "thai", "beng", "knda"} THEN 6 ELSE 5]
+LenQuick    == [a \in DOMAIN Alpha |-> 4]
+LenThorough == [a \in DOMAIN Alpha |-> 5]
 =============================================================================
